@@ -1,7 +1,7 @@
 (* C16 - the splice table regenerated from /repo (VerifGen.K10) satisfies site_ok, and what
    that means together with the string-literal theorem. *)
 From Coq Require Import List String Ascii NArith Bool.
-From Verif Require Import PyStrLit PyStrLitProofs Splice.
+From Verif Require Import PyStrLit PyStrLitProofs PyLit PyLitProofs Splice DefaultLit DefaultLitProofs.
 From VerifGen Require Import K10.
 Import ListNotations.
 Open Scope string_scope.
@@ -35,6 +35,7 @@ Proof.
   intros Hin Hg p d rest Hp Hw.
   pose proof (proj1 (forallb_forall _ _) sites_ok st Hin) as Hok.
   unfold site_ok in Hok. apply andb_true_iff in Hok. destruct Hok as [Hok _].
+  apply andb_true_iff in Hok. destruct Hok as [Hok _].
   apply andb_true_iff in Hok. destruct Hok as [Hok Ha].
   apply andb_true_iff in Hok. destruct Hok as [Hk Hb].
   split; [|exact Hb].
@@ -54,6 +55,7 @@ Proof.
   intros Hin Hk.
   pose proof (proj1 (forallb_forall _ _) sites_ok st Hin) as Hok.
   unfold site_ok in Hok. rewrite Hk in Hok.
+  apply andb_true_iff in Hok. destruct Hok as [Hok _].
   repeat (apply andb_true_iff in Hok; destruct Hok as [Hok ?]). auto.
 Qed.
 
@@ -66,6 +68,48 @@ Proof.
   intros Hin _ d rest Hw.
   pose proof (proj1 (forallb_forall _ _) sites_ok st Hin) as Hok.
   unfold site_ok in Hok. apply andb_true_iff in Hok. destruct Hok as [Hok _].
+  apply andb_true_iff in Hok. destruct Hok as [Hok _].
   apply andb_true_iff in Hok. destruct Hok as [_ Ha].
   apply repr_bytes_lex; [assumption | apply after_ok_ctx, Ha].
 Qed.
+
+(* round 3: VALUES at repr()/ascii() sites.  The types that reach such a site (guards in the
+   generator's source, or str by API) are all literal kinds, and for every str / bytes / int / bool /
+   None value the text placed there evaluates back to exactly that value (finite floats: not modelled) *)
+Theorem site_value st :
+  In st splice_sites -> s_kind st = KRepr \/ s_kind st = KAscii ->
+  s_types st <> [] /\ forallb literal_kind (s_types st) = true /\
+  forall v p rest, atom_ty v <> None -> wf_lit v -> oracle_ok p ->
+    eval_lit (site_value_text (s_kind st) p v ++ codes (s_after st) ++ rest)
+    = Some (v, codes (s_after st) ++ rest).
+Proof.
+  intros Hin Hk.
+  pose proof (proj1 (forallb_forall _ _) sites_ok st Hin) as Hok.
+  unfold site_ok in Hok. apply andb_true_iff in Hok. destruct Hok as [Hok Ht].
+  apply andb_true_iff in Hok. destruct Hok as [Hok _].
+  apply andb_true_iff in Hok. destruct Hok as [_ Ha].
+  unfold types_ok, types_ok_gen in Ht.
+  assert (Ht': s_types st <> [] /\ forallb literal_kind (s_types st) = true).
+  { destruct Hk as [E|E]; rewrite E in Ht; apply andb_true_iff in Ht; destruct Ht as [Hn Hl];
+      (split; [destruct (s_types st); [discriminate | discriminate] | exact Hl]). }
+  destruct Ht' as [Hn Hl]. split; [exact Hn|]. split; [exact Hl|].
+  intros v p rest _ Hw Hp.
+  pose proof (after_ok_ends _ rest Ha) as He.
+  destruct Hk as [E|E]; rewrite E; cbn [site_value_text].
+  - apply render_eval; assumption.
+  - apply render_eval; [intros c _; reflexivity | assumption | assumption].
+Qed.
+
+(* full strength: no repr()/ascii() site admits instances of str/bytes/int subclasses *)
+Lemma sites_full : forallb site_ok_full splice_sites = true.
+Proof. vm_compute. reflexivity. Qed.
+
+(* the default-value renderer of /repo, as read from its source on this run, is a safe table *)
+Lemma default_branches_safe : branches_safe default_literal_branches = true.
+Proof. vm_compute. reflexivity. Qed.
+
+Theorem default_literal v : dwf default_literal_branches v = true ->
+  exists l, shape default_literal_branches v = Some l /\ denotes l v /\
+    forall p rest, oracle_ok p -> ends_token rest = true ->
+      eval_lit (render_lit p l ++ rest) = Some (l, rest).
+Proof. apply shape_sound. exact default_branches_safe. Qed.
